@@ -14,6 +14,10 @@ namespace {
 constexpr std::size_t kChunkIdSize = ChunkId{}.size();
 constexpr std::size_t kPeerIdSize = PeerId{}.size();
 
+// First message version whose ANNOUNCE carries the proof-of-work nonce on the wire.
+// encode() and decode() must agree on it.
+constexpr std::uint8_t kAnnounceNonceVersion = 3;
+
 std::uint8_t clamp_version(std::uint8_t version) {
     if (version < kMinimumMessageVersion) {
         return kMinimumMessageVersion;
@@ -218,7 +222,7 @@ std::vector<std::uint8_t> encode(const Message& message) {
                 const auto endpoint_len = static_cast<std::uint32_t>(payload.endpoint.size());
                 const auto manifest_len = static_cast<std::uint32_t>(payload.manifest_uri.size());
                 const auto assignments_len = static_cast<std::uint32_t>(payload.assigned_shards.size());
-                const bool include_pow = version >= kCurrentMessageVersion;
+                const bool include_pow = version >= kAnnounceNonceVersion;
 
                 write_u32(out, static_cast<std::uint32_t>(payload.ttl.count()));
                 write_u32(out, endpoint_len);
@@ -281,7 +285,7 @@ std::optional<Message> decode(std::span<const std::uint8_t> buffer) {
     const auto remaining = buffer.size() - 2;
 
     std::optional<Payload> payload{};
-    if (version >= 3 && type == MessageType::Announce) {
+    if (version >= kAnnounceNonceVersion && type == MessageType::Announce) {
         auto parsed = parse_announce_payload(data, remaining, true);
         if (!parsed.has_value()) {
             return std::nullopt;
